@@ -22,7 +22,11 @@ def sameVars (a b : Vars) : Bool :=
 def judge (c : Case) : CaseResult := Id.run do
   if !c.bad.isEmpty then return { bad := c.bad }
   let mut r : CaseResult := {}
-  let m := replay faithful c
+  -- the code's configuration under both scheduling variants; the one that reproduces the recorded run is used
+  let m0 := replay faithful c
+  let m1 := replay { faithful with eagerSettle := true } c
+  let good (m : Replay) : Bool := m.oos.isNone && m.mismatch.isNone && sameVars m.finalVars ((implFinalVars c).getD [])
+  let m := if good m0 then m0 else if good m1 then m1 else m0
   let i := replay Cfg.ideal c
   let implVars := (implFinalVars c).getD []
   let unknownReq (o : Option String) : Bool := (o.map (·.startsWith "answer to unknown request")).getD false
